@@ -1,6 +1,7 @@
 import Proofs.C18
 import Proofs.TieBuild
 import Proofs.TieLoopTail
+import Proofs.SrcC18
 #print axioms PV.Proofs.C18.kt_in_loop
 #print axioms PV.Proofs.C18.loops_in_order
 #print axioms PV.Proofs.C18.factor_ratio
@@ -15,3 +16,5 @@ import Proofs.TieLoopTail
 #print axioms PV.Proofs.Tie.declared_translated_looptail
 #print axioms PV.Proofs.Tie.loop_tail_tie
 #print axioms PV.Proofs.Tie.loop_tail_frame
+#print axioms PV.Proofs.Source.C18_source_factor_ratio
+#print axioms PV.Proofs.Source.C18_source_factor_finish
